@@ -144,6 +144,24 @@ def run(chk):
          'a LIMIT is emitted for predicates without @Limit', fi=fi)
 
   # ---- R2: clauses appended to every result of PredicateSql -----------------
+  # the positional keys of an annotation (@OrderBy(P, "a", "b", ...)) are the
+  # decimal strings "1", "2", ...: they are taken in NUMERIC order (with ten or
+  # more keys lexicographic order puts "10" before "2")
+  fv = repo.func('universe.FieldValuesAsList')
+  lex = []
+  for c in walk_local(fv.node):
+    if isinstance(c, ast.Call) and call_tail(c) in ('sorted', 'sort'):
+      key = [k.value for k in c.keywords if k.arg == 'key']
+      numeric = key and any(isinstance(n_, ast.Name) and n_.id in ('int', 'float')
+                            for n_ in ast.walk(key[0]))
+      if not numeric:
+        lex.append(c)
+  chk.ob('C18-R2', not lex, None,
+         'positional annotation arguments are taken in numeric order of their position',
+         'FieldValuesAsList orders the positions as strings (`%s`): from ten order_by '
+         'keys on, the 10th key is placed second and the rows are ordered by the '
+         'wrong key sequence' % (norm(lex[0], 60) if lex else ''), fi=fv,
+         node=lex[0] if lex else None)
   from rules.c04 import annotations_read_fresh_state
   annotations_read_fresh_state(chk, 'C18-R1')
 
